@@ -184,6 +184,8 @@ func (ei *resourceInformer) enableKubeEventCb() {
 		return
 	}
 	ei.eventCbEnabled = true
+	verifsched.Point("informer.enable.flagSet", ei.Monitor.Metadata.DebugName)
+	verifsched.Point("informer.enable.beforeReplay", ei.Monitor.Metadata.DebugName)
 	for _, kubeEvent := range ei.eventBuf {
 		// Handle saved kube events.
 		ei.putEvent(kubeEvent)
